@@ -69,6 +69,12 @@ REF_PROGRAMS = {
     "activated-restart": "flow g\n  match E1()\n  start ActGAction()\n  match E2()\n\nflow a1\n  activate g\n  match E3()\n\nflow main\n  start a1\n  match Never()\n",
     "while-loop": "flow main\n  $i = 0\n  while $i < 3\n    match E1()\n    $i = $i + 1\n    send Echo(i=$i)\n  send Echo2()\n  match Never()\n",
     "flow-params-return": "flow c $a $b=2\n  match E1()\n  return [$a, $b]\n\nflow main\n  $x = await c 1\n  send Echo(x=$x)\n  match E2()\n  send Echo2(x=$x[1])\n  match Never()\n",
+    # two variables / a variable and a flow parameter refer to ONE container that is later changed in place
+    "aliased-list": "flow main\n  $a = [1]\n  $b = $a\n  match E1()\n  ($a.append(2))\n  send Echo(n=len($b))\n  match E2()\n  ($b.append(3))\n  send Echo2(n=len($a))\n  match Never()\n",
+    "aliased-dict": "flow main\n  $a = {\"k\": 1}\n  $b = $a\n  match E1()\n  ($a.update({\"j\": 2}))\n  send Echo(n=len($b))\n  match Never()\n",
+    "list-shared-with-callee": "flow c $l\n  match E1()\n  ($l.append(2))\n  match E3()\n\nflow main\n  $a = [1]\n  start c $a\n  match E2()\n  send Echo(n=len($a))\n  match Never()\n",
+    # one compiled regular expression held in two places (re.compile caches: equal patterns are one object)
+    "regex-held-twice": "flow c $r\n  match E1(p=$r)\n  send CM()\n  match E3()\n\nflow main\n  $x = regex(\"a\")\n  $y = regex(\"a\")\n  start c $x\n  match E2(p=$y)\n  send Echo()\n  match Never()\n",
     "await-then-finish": "flow c\n  match E1()\n  match E2()\n\nflow d\n  match E1()\n\nflow main\n  start c\n  await d\n  send Echo()\n  match E3()\n  send Echo2()\n  match Never()\n",
 }
 
